@@ -259,12 +259,27 @@ def _stage_case(res, rng, ident):
     # table has exon 1 31 kb upstream of where the RefSeq maps it); uncatalogued variants are kept or dropped by
     # region, so with the `novel` switch the refinement then depends on the build
     region_mech = None
-    if novel_r:
-        ra = ga.region_at(ga.ref_to_chr[novel_r[0]])
-        rb = gb.region_at(gb.ref_to_chr[novel_r[0]])
-        if ra != rb and not name.startswith("gen"):
+    if novel_r and not name.startswith("gen"):
+        # with the switch on, every supported variant outside the candidates' pool is kept or dropped by region:
+        # the uncatalogued one and the planted variants of alleles that are not among the candidates
+        supported_r = {novel_r[0]}
+        for c in copies:
+            for m in tables.allele_variants(ga, *c):
+                if m.pos in ga.chr_to_ref:
+                    supported_r.add(ga.chr_to_ref[m.pos])
+        for w in extra:
+            for m in ga.mutations:
+                if refseq_of(ga, m) == w and m[0] in ga.chr_to_ref:
+                    supported_r.add(ga.chr_to_ref[m[0]])
+        differing = []
+        for r in sorted(supported_r):
+            if r in ga.ref_to_chr and r in gb.ref_to_chr:
+                ra, rb = ga.region_at(ga.ref_to_chr[r]), gb.region_at(gb.ref_to_chr[r])
+                if ra != rb:
+                    differing.append([r, str(ra), str(rb)])
+        if differing:
             region_mech = "shipped-region-tables-differ-between-builds"
-            desc["region_of_novel_variant"] = [str(ra), str(rb)]
+            desc["supported_variants_in_differing_regions"] = differing[:4]
     same_sites = sigs[0] == sigs[1]
     if not same_sites:
         res.count("cases_with_strand_dependent_site_grouping")
